@@ -3,7 +3,7 @@
 //@ props: C18 C08
 //@ expect: postcondition>=3 canary=3
 #include "_unit.h"
-/* any previous designation (unset / file / value, name or value of any length), any new file name of 0..2^20 characters */
+/* any previous designation (unset / file / value, name or value of any length), any new file name of 0..2^16 characters */
 void harness(void)
 {
     xv_ghost_havoc(); xc_ghost_havoc();
